@@ -72,6 +72,8 @@ namespace sim
     std::map<int, void*> live;                 // id -> adaptor (type erased)
     std::vector<std::string> log;
     std::deque<aborted_completion> aborted;    // completions of operations cancelled by close()
+    std::map<int, std::string> available;      // bytes that have already arrived for a connection when its next read is started:
+                                               // asio (and OpenSSL's buffer) hand them over at once, into the buffer given to read()
     void say(int id, std::string const& what) { log.push_back("c" + std::to_string(id) + ":" + what); }
   };
 
@@ -154,6 +156,13 @@ namespace sim
       if (read_pending_) the_world()->say(id_, "SECOND-READ");
       read_pending_ = true; read_buf_ = buffer; read_handler_ = h;
       the_world()->say(id_, "read");
+      auto av = the_world()->available.find(id_);
+      if (av != the_world()->available.end())
+      {
+        // the operation is tried when it is started (speculatively): the buffer is written now, the completion comes later
+        std::memcpy(read_buf_.data(), av->second.data(), std::min(av->second.size(), read_buf_.size()));
+        the_world()->available.erase(av);
+      }
     }
 
     void write(via::comms::ConstBuffers const& buffers, via::comms::CommsHandler h)
